@@ -34,6 +34,9 @@ def run(ctx):
     from .c13 import r13a
 
     ctx.each(r13a, ctx, repo)
+    from . import c20 as _c20
+
+    ctx.each(_c20.r20e, ctx, repo)  # the number eligible that coverage is reported against is summed into a fresh array, never into the result's stored compartment sizes
 
 
 def _is_one(e):
